@@ -51,3 +51,67 @@ harness!(c16_weekday_pairs, unwind = 2, |s| {
     v_assert!(s, a.to_c89_weekday() == (ia + 1) % 7, "C89 weekday: Sunday = 0");
     v_cover!(ia > ib, "a after b reachable");
 });
+
+// weekday_utc: civil weekday of the UTC calendar date. The UTC instant is drawn as (day index, time of day),
+// so the oracle needs no division; a TAI-sourced epoch is the same instant shifted by the IERS offset.
+harness!(c16_weekday_utc, unwind = 44, |s| {
+    let day = s.u32();
+    let tod = s.u64();
+    s.assume(day < 2 * 36_525 && tod < NPD);
+    let from_tai = s.bool();
+    let c: i16 = if day >= 36_525 { 1 } else { 0 };
+    let n: u64 = (day as u64 - c as u64 * 36_525) * NPD + tod;
+    let utc = (c, n);
+    let e = if from_tai {
+        let p = shift_parts(utc, super::c06::oracle_delta_at_parts(utc) as i128 * NPS as i128);
+        s.assume(p.is_some());
+        let p = p.unwrap();
+        Epoch::from_duration(Duration::from_parts(p.0, p.1), TimeScale::TAI)
+    } else {
+        Epoch::from_duration(Duration::from_parts(c, n), TimeScale::UTC)
+    };
+    // 1900-01-01 (day 0) was a Monday
+    let want = (day % 7) as u8;
+    v_assert!(s, e.weekday_utc() == weekday_of(want), "weekday_utc is the civil weekday of the UTC date");
+    v_cover!(from_tai && c == 1, "TAI-sourced, 21st century reachable");
+    v_cover!(!from_tai && tod == NPD - 1, "UTC-sourced, last nanosecond of a day reachable");
+});
+
+#[inline(always)]
+fn next_prev_body<S: Src>(s: &mut S, ts: TimeScale, ref_day_shift: i64) {
+    let c = s.i16();
+    let dayc = s.u32();
+    let tod = s.u64();
+    s.assume(c >= -3 && c <= 3 && dayc < 36_525 && tod < NPD);
+    let (w, wi) = any_weekday(s);
+    let n = dayc as u64 * NPD + tod;
+    let e = Epoch::from_duration(Duration::from_parts(c, n), ts);
+    // TAI day index of the epoch: the scale's zero is `ref_day_shift` whole days (+ < 1 day) after 1900-01-01;
+    // only used for scales whose zero is at 00:00:19 TAI, so the day changes 19 s before the scale's own midnight
+    let day = c as i64 * 36_525 + dayc as i64 + ref_day_shift;
+    let carry = if ts == TimeScale::GPST && tod + 19 * NPS >= NPD { 1 } else { 0 };
+    let wd = ((((day + carry) % 7) + 7) % 7) as i16;
+    let mut k_next = (wi as i16 - wd + 7) % 7;
+    if k_next == 0 {
+        k_next = 7;
+    }
+    let mut k_prev = (wd - wi as i16 + 7) % 7;
+    if k_prev == 0 {
+        k_prev = 7;
+    }
+    let nx = e.next(w);
+    let pv = e.previous(w);
+    v_assert!(s, nx.time_scale == ts && pv.time_scale == ts, "scale kept");
+    v_assert!(s, Some(nx.duration.to_parts()) == shift_parts((c, n), k_next as i128 * NPD as i128), "next: 1..7 whole days later on the requested weekday, same time of day");
+    v_assert!(s, Some(pv.duration.to_parts()) == shift_parts((c, n), -(k_prev as i128) * NPD as i128), "previous: 1..7 whole days earlier on the requested weekday, same time of day");
+    v_cover!(k_next == 7, "same weekday requested reachable");
+}
+
+harness!(c16_next_previous, unwind = 2, |s| {
+    let g = s.bool();
+    if g {
+        next_prev_body(s, TimeScale::GPST, days_from_1900(1980, 1, 6));
+    } else {
+        next_prev_body(s, TimeScale::TAI, 0);
+    }
+});
